@@ -7,7 +7,7 @@ import (
 )
 
 var c04Vary = []string{"", "X-A", "X-B", "X-A, X-B", "x-b ,X-A", "Accept-Encoding", "Accept-Language", "*", "X-A, *", "X-A,X-B", "Authorization", "Authorization, X-A", "Cookie", "User-Agent"}
-var c04Pieces = []string{"", "1", "2", "X-A", "X-B", "1X-B2", " 1", "1 ", "a,b", "b, a", "GZIP", "gzip", "x-gzip", "en;q=0.5", "en", ",", "caf$XE9", "caf$XE8", "caf$XC3$XA9"}
+var c04Pieces = []string{"", "1", "2", "X-A", "X-B", "1X-B2", " 1", "1 ", "a,b", "b, a", "GZIP", "gzip", "x-gzip", "en;q=0.5", "en", ",", "caf$XE9", "caf$XE8", "caf$XC3$XA9", "caf%E9", "caf%e8", "$XEF$XBF$XBD", "636166e9"}
 
 // values of fields with a structure of their own (credentials, cookies, product tokens)
 var c04Structured = map[string][]string{
@@ -45,8 +45,48 @@ func c04Headers(t *rapid.T, label string) [][2]string {
 	return h
 }
 
+// c04Reuse: a stale response is served while it is refreshed in the background, and the caller
+// reuses its request object (as it may, having closed the body) for another variant while the
+// refresh is still under way. What the refresh stores belongs to the variant that was asked for.
+func c04Reuse(t *rapid.T) *world.Scenario {
+	sc := &world.Scenario{Prop: "C04", Backend: "mem"}
+	u := "http://a.test/c04"
+	va, vb := Pick(t, "rva", "1", "2", "a,b"), Pick(t, "rvb", "2", "3", "")
+	mk := func(lbl, xa string, reuse bool) world.Step {
+		rq := &world.Req{Method: "GET", URL: u}
+		if xa != "" {
+			rq.Header = [][2]string{H("X-A", xa)}
+		}
+		rp := world.Reply{Kind: "resp", Status: 200, Body: world.Body{Len: 24}, LatencyNs: Pick(t, lbl+"-lat", int64(0), Sec, Sec),
+			Header: [][2]string{H("Date", "$T+0"), H("Cache-Control", "max-age=1, stale-while-revalidate=100000"), H("Vary", "X-A")}}
+		rp.Header = append(rp.Header, validators(t, lbl+"-val")...)
+		rq.Uncond = rp
+		c := rp
+		rq.Cond = &c
+		if Pct(t, lbl+"-304", 30) {
+			rq.Cond = Simple304()
+			rq.Cond.LatencyNs = rp.LatencyNs
+		}
+		if reuse {
+			rq.ReuseReq = true
+			rq.ReuseDelayNs = Pick(t, lbl+"-rd", int64(0), Sec/2, Sec/2)
+			rq.ReuseSet = [][2]string{H("X-A", vb)}
+		}
+		return ReqStep(rq)
+	}
+	sc.Steps = append(sc.Steps, mk("r0", va, false), SleepStep(5), mk("r1", va, true), SleepStep(3))
+	for i := 0; i < rapid.IntRange(1, 3).Draw(t, "rn"); i++ {
+		lbl := "r" + itoa(int64(i+2))
+		sc.Steps = append(sc.Steps, mk(lbl, Pick(t, lbl+"-xa", vb, vb, va, "reused"), Pct(t, lbl+"-reuse", 30)))
+	}
+	return sc
+}
+
 // C04 generates request histories on one URI with origin replies whose Vary changes over time.
 func C04(t *rapid.T) *world.Scenario {
+	if Pct(t, "reusefam", 6) {
+		return c04Reuse(t)
+	}
 	sc := &world.Scenario{Prop: "C04", Backend: "mem"}
 	u := "http://a.test/c04"
 	n := rapid.IntRange(2, 9).Draw(t, "steps")
